@@ -5,9 +5,11 @@ import (
 	"fmt"
 	"hash"
 	"math/big"
+	"runtime"
 	"strings"
 	"sync"
 	"sync/atomic"
+	"time"
 
 	"github.com/free5gc/ike/eap"
 	"github.com/free5gc/ike/message"
@@ -134,6 +136,25 @@ func c07Derive(k *core.Case) {
 	if k.Index%2 == 0 {
 		pokeAccessors(key) // the application logs the new SA (String(), accessors) before using it
 		k.Count("sa_logged_before_use", 1)
+	}
+	if k.Index%12 == 5 {
+		// the application builds further cipher / MAC / PRF objects from the SA's key fields (for a worker, for a test
+		// vector), drops them, and the garbage collector runs (finalizers included) before the SA is used
+		func() {
+			if c2, err := key.EncrInfo.NewCrypto(key.SK_ei); err == nil {
+				_, _ = c2.Encrypt([]byte("x"))
+			}
+			_, _ = key.EncrInfo.NewCrypto(key.SK_er)
+			_ = key.IntegInfo.Init(key.SK_ai)
+			_ = key.IntegInfo.Init(key.SK_ar)
+			_ = key.PrfInfo.Init(key.SK_d)
+			_ = key.PrfInfo.Init(key.SK_pi)
+		}()
+		runtime.GC()
+		runtime.Gosched()
+		time.Sleep(2 * time.Millisecond) // finalizers run on their own goroutine after the collection
+		runtime.GC()
+		k.Count("objects_built_from_the_sa_keys_dropped_and_collected", 1)
 	}
 	want := ref.DeriveIKE(p, s, nonce, shared, spii, spir)
 	if bad := cmpKeys(key, want); bad != "" {
@@ -434,7 +455,7 @@ func c07(c *core.Ctx) {
 		}
 		k.Count("colliding_secret_pairs", 1)
 	})
-	c.Require("responder_public_value_with_leading_zero_octet", "colliding_secret_pairs", "sa_logged_before_use", "offers_prepared_from_returned_transforms_before", "two_party_runs", "two_party_shared_secret_with_leading_zeros", "held_sa_keys_rechecked", "same_object_keyed_twice")
+	c.Require("objects_built_from_the_sa_keys_dropped_and_collected", "responder_public_value_with_leading_zero_octet", "colliding_secret_pairs", "sa_logged_before_use", "offers_prepared_from_returned_transforms_before", "two_party_runs", "two_party_shared_secret_with_leading_zeros", "held_sa_keys_rechecked", "same_object_keyed_twice")
 }
 
 // ---------------------------------------------------------------------------
@@ -482,6 +503,7 @@ func c08One(k *core.Case) {
 	p, e, i := ci%3, (ci/3)%3, (ci/9)%4
 	raw := libsa.RandomRaw(k.R, ref.Suites[k.R.Intn(9)])
 	raw.Prf = p
+	raw.In = nil
 	raw.K.D = k.R.Bytes(ref.PrfKeyLen(p))
 	ike, err := libsa.NewKey(raw)
 	if err != nil {
@@ -553,6 +575,7 @@ func c08History(k *core.Case) {
 		if k.R.Chance(1, 8) {
 			// the IKE SA object is keyed again (IKE_SA_INIT retry / object reuse): later Child SAs follow the NEW SK_d
 			if err := long.GenerateKeyForIKESA(k.R.Bytes(k.R.Range(1, 80)), k.R.Bytes(k.R.Range(1, 260)), k.R.U64(), k.R.U64()); err == nil {
+				raw.In = nil
 				raw.K.D, raw.K.Ai, raw.K.Ar = append([]byte{}, long.SK_d...), append([]byte{}, long.SK_ai...), append([]byte{}, long.SK_ar...)
 				raw.K.Ei, raw.K.Er = append([]byte{}, long.SK_ei...), append([]byte{}, long.SK_er...)
 				raw.K.Pi, raw.K.Pr = append([]byte{}, long.SK_pi...), append([]byte{}, long.SK_pr...)
